@@ -10,6 +10,7 @@ from . import explore, native, findings
 from .interp import Exec, SV, SB, Panic, Unsupported, Violation, StepLimit
 from .main import Result
 from .parser_kit import ParserKit
+from .seg import SegRunner
 
 STEP_BASE = 40000          # MIR statements allowed per path: STEP_BASE * (n + 2)
 EVENTS_PER_TOKEN = 64
@@ -41,36 +42,50 @@ class PEnv:
 
 
 class ParserHarness:
-    def __init__(self, n, known, seed, sample_rate=0.02):
+    """mode None: uncut, whole TopEntryPoint::parse.  mode 'A'/'B': one construct from a top-level loop head
+    (seg.SegRunner) with the parser positioned at token index P."""
+    def __init__(self, n, known, seed, sample_rate=0.02, mode=None, P=0):
         self.n = n; self.known = known; self.seed = seed; self.sample_rate = sample_rate
+        self.mode = mode; self.P = P
         self.kit = None
 
     def make_exec(self):
         self.kit = ParserKit()
+        if self.mode:
+            self.seg = SegRunner(self.kit)
         return Exec(self.kit.prog, self.kit.models, max_steps=STEP_BASE * (self.n + 2))
 
     def run(self, ex):
         kit = self.kit
         self.toks = kit.sym_tokens(self.n)
         kit.constrain_alphabet(ex, self.toks)
-        self.jw = SV(z3.BitVec("joint", 64), 64)
-        out = kit.parse(ex, self.toks, self.jw)
-        steps = kit.decode(out)
+        nw = (self.P + self.n) // 64 + 1
+        self.jws = [SV(z3.BitVec(f"joint{w}", 64), 64) for w in range(nw)]
+        if self.mode is None:
+            out = kit.parse(ex, self.toks, self.jws[0])
+            steps = kit.decode(out)
+            self.last = {"kind": "full", "consumed": self.n}
+        else:
+            r = self.seg.run(ex, self.toks, self.jws, self.mode, self.P)
+            steps = r["steps"]; self.last = r
         if len(steps) > EVENTS_PER_TOKEN * (self.n + 1):
             raise StepLimit(f"event list grew to {len(steps)} entries for {self.n} tokens")
         return steps
 
     def concrete(self, ex, model):
         ks = self.kit.model_tokens(model, self.n)
-        jw = model.get("joint", 0)
-        return ks, [(jw >> i) & 1 for i in range(self.n)]
+        js = []
+        for i in range(self.n):
+            g = self.P + i
+            js.append((model.get(f"joint{g // 64}", 0) >> (g % 64)) & 1)
+        return ks, js
 
     def describe(self, ex, outcome, detail):
         kit = self.kit
         if outcome == "ok":
             h = hashlib.sha256((str(self.seed) + ":" + ",".join(map(str, ex.decisions))).encode()).digest()
-            if h[0] / 256.0 >= self.sample_rate:
-                return ("ok", len(detail), ex.steps)
+            if h[0] / 256.0 >= self.sample_rate or self.mode is not None:
+                return ("ok", len(detail), ex.steps, self.last["kind"], self.last["consumed"])
             model = ex.model() or {}
             ks, js = self.concrete(ex, model)
             steps = []
@@ -92,9 +107,9 @@ class ParserHarness:
         return ("fail", outcome, site, ks, js, kid, detail.get("stack", [])[-5:])
 
 
-def _hfactory(n, known, seed, rate):
+def _hfactory(n, known, seed, rate, mode=None, P=0):
     def f():
-        return ParserHarness(n, known, seed, rate)
+        return ParserHarness(n, known, seed, rate, mode, P)
     return f
 
 
@@ -107,44 +122,62 @@ def native_parse_kinds(ks, js, profile="dev", timeout=10):
     return native.run_one(line, profile, timeout=timeout, mem_gb=2), line
 
 
-def run_parser(ctx, res, N):
+def run_parser(ctx, res, N, NC, POFF=()):
     kit = ParserKit()
     res.functions_encoded += ["oq3_parser::TopEntryPoint::parse", "oq3_parser::grammar::* (all)", "oq3_parser::parser::* (all)",
                               "oq3_parser::event::process", "oq3_parser::token_set::*", "oq3_parser::input::*", "oq3_parser::output::*"]
-    res.bounds["parser_tokens"] = N
+    res.bounds["parser_tokens_uncut"] = N
+    res.bounds["parser_tokens_one_construct_from_loop_head"] = NC
+    res.bounds["parser_start_offsets"] = [0] + list(POFF)
     res.bounds["parser_alphabet"] = len(kit.alphabet)
     res.bounds["joint_bits"] = "all 2^64 words"
     res.bounds["steps_per_path"] = f"{STEP_BASE}*(n+2) MIR statements; events <= {EVENTS_PER_TOKEN}*(n+1)"
     fails = {}
     samples = []
     maxsteps = collections.Counter()
-    for n in range(0, N + 1):
+    plan = [(n, None, 0) for n in range(0, N + 1)]
+    for n in range(1, NC + 1):
+        plan += [(n, "A", 0), (n, "B", 0)]
+    for P in POFF:
+        plan += [(n, "A", P) for n in range(1, min(NC, 3) + 1)]
+    segstats = {}
+    for (n, mode, P) in plan:
         rate = 1.0 if n <= 1 else (0.05 if n == 2 else 0.003)
+        tag = f"{'uncut' if mode is None else 'cut-' + mode}{'' if not P else '@' + str(P)} n={n}"
 
         def on_records(recs):
             for r in recs:
                 if r[0] == "ok":
                     maxsteps[n] = max(maxsteps[n], r[2])
+                    if mode:
+                        segstats[(mode, r[3], r[4])] = segstats.get((mode, r[3], r[4]), 0) + 1
                 elif r[0] == "sample":
                     maxsteps[n] = max(maxsteps[n], r[2])
                     samples.append(r)
                 else:
                     key = (r[2], r[5])
                     if key not in fails:
-                        fails[key] = {"count": 0, "examples": []}
+                        fails[key] = {"count": 0, "examples": [], "where": set()}
                     fails[key]["count"] += 1
+                    fails[key]["where"].add("uncut" if mode is None else "cut")
                     if len(fails[key]["examples"]) < 3:
                         fails[key]["examples"].append(r)
-        budget = None
-        st, exhaustive, err = explore.explore(_hfactory(n, ctx.known, ctx.seed, rate), workers=ctx.workers, seed=ctx.seed,
-                                              time_budget=budget, on_records=on_records, log=ctx.log)
+        st, exhaustive, err = explore.explore(_hfactory(n, ctx.known, ctx.seed, rate, mode, P), workers=ctx.workers, seed=ctx.seed,
+                                              time_budget=None, on_records=on_records, log=ctx.log)
         res.merge_stats(st)
-        ctx.log(f"parser n={n}: {st.get('paths', 0)} paths ok={st.get('ok', 0)} panic={st.get('panic', 0)} stuck={st.get('stuck', 0)} "
+        ctx.log(f"parser {tag}: {st.get('paths', 0)} paths ok={st.get('ok', 0)} panic={st.get('panic', 0)} stuck={st.get('stuck', 0)} "
                 f"unsupported={st.get('unsupported', 0)} wall={st.get('wall', 0):.1f}s")
         if err:
             res.inconclusive.append(err[:500])
         if not exhaustive:
-            res.inconclusive.append(f"parser exploration n={n} not exhausted")
+            res.inconclusive.append(f"parser exploration {tag} not exhausted")
+    res.extra["cut_segments"] = {f"{k[0]}:{k[1]}:consumed{k[2]}": v for k, v in sorted(segstats.items())}
+    # the cut is validated, not assumed: every failure class seen by the uncut exploration must also be seen
+    # by the cut exploration of the same length and vice versa (for sites reachable within N tokens)
+    if NC >= N:
+        for (site, kid), info in fails.items():
+            if info["where"] == {"uncut"}:
+                res.inconclusive.append("cut exploration missed a failure class the uncut exploration found: " + site)
     res.extra["max_mir_statements_per_path_by_n"] = dict(maxsteps)
     # ---- engine validation: sampled passing paths must give the same step list natively
     lines = []
@@ -224,8 +257,10 @@ def _short(o):
 def run(ctx):
     res = Result()
     N = 2 if ctx.quick() else 3
+    NC = 3 if ctx.quick() else 5
     N = int(os.environ.get("VERIF_C01_N", N))
-    run_parser(ctx, res, N)
+    NC = int(os.environ.get("VERIF_C01_NC", NC))
+    run_parser(ctx, res, N, NC, POFF=() if ctx.quick() else (62, 63))
     res.exhaustive = not res.inconclusive
     res.stubs += ["Vec/slice/Option/Result/iterators/Cell/mem::replace (vf/models.py)", "format!/fmt::Arguments opaque",
                   "ra_ap_limit::Limit::check", "drop_bomb::DropBomb (panics on drop unless defused)"]
